@@ -1,9 +1,40 @@
 import Luqum.Driver.Codec
 import Luqum.Model.ParserInst
+import Luqum.Model.Transform
+import Luqum.Model.Naming
 
 namespace Luqum.Ops
 open Lean (Json)
 open Luqum.Codec
+
+def pathJ (p : List Nat) : Json := Json.arr (p.map (fun n => Json.num (Lean.JsonNumber.fromNat n))).toArray
+def pathsJ (ps : List (List Nat)) : Json := Json.arr (ps.map pathJ).toArray
+
+def getPath (j : Json) : Except String (List Nat) := do
+  let a ← j.getArr?
+  a.toList.mapM (fun x => x.getNat?)
+
+def getPaths (j : Json) (k : String) : Except String (List (List Nat)) := do
+  let a ← getArr j k
+  a.mapM getPath
+
+def getStrList (j : Json) (k : String) : Except String (List String) := do
+  let a ← getArr j k
+  a.mapM (fun x => x.getStr?)
+
+def getStrD (j : Json) (k : String) (d : String) : Str :=
+  match j.getObjVal? k with
+  | .ok v => match v.getStr? with | .ok s => s.toList | _ => d.toList
+  | _ => d.toList
+
+def pathLt : List Nat → List Nat → Bool
+  | [], [] => false
+  | [], _ => true
+  | _, [] => false
+  | a :: r, b :: s => a < b || (a == b && pathLt r s)
+
+def sortPaths (ps : List (List Nat)) : List (List Nat) :=
+  (ps.toArray.qsort pathLt).toList.eraseDups
 
 def handle (j : Json) : Except String Json := do
   let op ← j.getObjVal? "op" >>= Json.getStr?
@@ -25,6 +56,70 @@ def handle (j : Json) : Except String Json := do
     | .error e =>
       let (cls, msg) := e.render
       return Json.mkObj [("err", Json.arr #[Json.str cls, Json.str msg])]
+  | "visit" =>
+    let t ← getTree (← j.getObjVal? "tree")
+    let hs ← getStrList j "handlers"
+    let cacheJ ← (getArr j "cache" <|> pure [])
+    let cache : Cache ← cacheJ.mapM (fun e => do
+      let a ← e.getArr?
+      let c ← (a.getD 0 Json.null).getStr?
+      let h ← (a.getD 1 Json.null).getStr?
+      pure (c, h))
+    let (evs, cache') := visitEvents hs cache [] [] t
+    let evJ := evs.map fun e => Json.mkObj [("h", Json.str e.handler), ("c", Json.str e.node.className),
+      ("path", pathJ e.path), ("parents", Json.arr (e.parents.map (fun p => Json.str p.className)).toArray)]
+    let cJ := cache'.map fun e => Json.arr #[Json.str e.1, Json.str e.2]
+    return Json.mkObj [("events", Json.arr evJ.toArray), ("cache", Json.arr cJ.toArray)]
+  | "visitseq" =>
+    -- several visits by one visitor instance: the dispatch cache is threaded
+    let hs ← getStrList j "handlers"
+    let treesJ ← getArr j "trees"
+    let trees ← treesJ.mapM getTree
+    let (outs, _) := trees.foldl (fun (acc : List Json × Cache) t =>
+      let (evs, c') := visitEvents hs acc.2 [] [] t
+      let evJ := evs.map fun e => Json.mkObj [("h", Json.str e.handler), ("c", Json.str e.node.className),
+        ("path", pathJ e.path), ("parents", Json.arr (e.parents.map (fun p => Json.str p.className)).toArray)]
+      (acc.1 ++ [Json.arr evJ.toArray], c')) ([], [])
+    return Json.mkObj [("visits", Json.arr outs.toArray)]
+  | "copy" =>
+    let t ← getTree (← j.getObjVal? "tree")
+    return Json.mkObj [("tree", treeJ t.copy)]
+  | "resolve" =>
+    let t ← getTree (← j.getObjVal? "tree")
+    let to ← j.getObjVal? "to" >>= Json.getStr?
+    let rt ← match to with
+      | "lucene" => pure ResolveTo.lucene | "and" => pure ResolveTo.and
+      | "or" => pure ResolveTo.or | "bool" => pure ResolveTo.bool
+      | _ => throw "bad resolve target"
+    return Json.mkObj [("tree", treeJ (resolve rt (getStrD j "add_head" " ") t))]
+  | "openrange" =>
+    let t ← getTree (← j.getObjVal? "tree")
+    return Json.mkObj [("tree", treeJ (openRange (getBoolD j "merge" false) (getStrD j "add_head" " ") t))]
+  | "aht" =>
+    let t ← getTree (← j.getObjVal? "tree")
+    match aht t with
+    | some r => return Json.mkObj [("ok", treeJ r)]
+    | none => return Json.mkObj [("err", Json.str "IndexError")]
+  | "autoname" =>
+    let t ← getTree (← j.getObjVal? "tree")
+    match autoName t with
+    | some (t', m) =>
+      return Json.mkObj [("tree", treeJ t'),
+        ("map", Json.arr (m.map (fun e => Json.arr #[str e.1, pathJ e.2])).toArray)]
+    | none => return Json.mkObj [("err", Json.str "KeyError")]
+  | "propagate" =>
+    let t ← getTree (← j.getObjVal? "tree")
+    let matching ← getPaths j "matching"
+    let other ← getPaths j "other"
+    let (_, ok, ko) := propagate (propCfg (getBoolD j "default_or" true)) matching other [] t
+    return Json.mkObj [("ok", pathsJ (sortPaths ok)), ("ko", pathsJ (sortPaths ko))]
+  | "mark" =>
+    let t ← getTree (← j.getObjVal? "tree")
+    let ok ← getPaths j "ok"
+    let ko ← getPaths j "ko"
+    let m : MarkCfg := { okClass := getStrD j "ok_class" "ok", koClass := getStrD j "ko_class" "ko",
+                         element := getStrD j "element" "span", parcimonious := getBoolD j "parcimonious" true }
+    return Json.mkObj [("str", str (htmlMark m ok ko t))]
   | "echo" =>
     let t ← getTree (← j.getObjVal? "tree")
     return Json.mkObj [("tree", treeJ t)]
